@@ -7,7 +7,7 @@ package text
 
 //@ func (*Caser).Identifierize
 //@   props C14
-//@   trusted used at call sites as an unknown-but-deterministic string; its own posts (valid, exported, no underscore) are checked by the bounded stand-in of /verif (C14), not proved
+//@   trusted used at call sites as an unknown-but-deterministic string; its own posts (non-empty, letters and digits only, first rune upper case) are proved in (*Caser).Identifierize@ident below (sequence mode); the bounded run of /verif only searches for a concrete failing input
 //@   option pure
 //@   assigns nothing
 
@@ -15,6 +15,52 @@ package text
 //@   errdrop WriteString: strings.Builder writes never fail
 
 //@ func (*Caser).IdentifierFromFileName
-//@   trusted used at call sites as an unknown-but-deterministic string (file-name handling is not modelled)
+//@   trusted used at call sites as an unknown-but-deterministic string; its posts are proved in (*Caser).IdentifierFromFileName@ident below (sequence mode)
 //@   option pure
 //@   assigns nothing
+
+// ---- sequence mode (loop invariants, no bound) ---------------------------------
+//
+// Strings are the sequences of runes they decode to. alnum(x): every rune of x
+// is a letter or a decimal digit (unicode.IsLetter / unicode.IsDigit), i.e. a
+// character Go allows inside an identifier. The capitalization list is user
+// configuration: the proofs assume its entries are themselves alphanumeric
+// (`requires caps`), which is listed among the unchecked assumptions.
+
+//@ func splitIdentifierByCaseAndSeparators
+//@   props C14 C01 C02 C03 C04 C05 C06 C07 C08 C09 C17 C19
+//@   option seq
+//@   ensures parts-alnum: forall p int :: 0 <= p && p < len(result) ==> alnum(result[p])
+//@   invariant loop1: 0 - 1 <= rangeindex && rangeindex < len(s) && 0 <= j && j <= rangeindex + 1
+//@     && (currState == 0 ==> rangeindex == 0 - 1 && j == 0)
+//@     && (currState != 0 && currState != 5 ==> forall k int :: j <= k && k <= rangeindex ==> alnumrune(s[k]))
+//@     && (forall p int :: 0 <= p && p < len(result) ==> alnum(result[p]))
+
+//@ func runesToStrings
+//@   props C14 C01 C02 C03 C04 C05 C06 C07 C08 C09 C17 C19
+//@   option seq
+//@   ensures same-parts: len(result) == len(runes) && forall p int :: 0 <= p && p < len(runes) ==> sameseq(result[p], runes[p])
+//@   invariant loop1: 0 - 1 <= rangeindex && rangeindex < len(runes) && len(result) == len(runes)
+//@     && (forall p int :: 0 <= p && p <= rangeindex ==> sameseq(result[p], runes[p]))
+
+//@ func (*Caser).Capitalize
+//@   props C14 C01 C02 C03 C04 C05 C06 C07 C08 C09 C17 C19
+//@   option seq
+//@   requires caps: forall p int :: 0 <= p && p < len(c.capitalizations) ==> alnum(c.capitalizations[p])
+//@   requires alnum(s)
+//@   ensures alnum: alnum(result)
+//@   invariant loop1: 0 - 1 <= rangeindex
+
+//@ func (*Caser).Identifierize@ident
+//@   props C14 C01 C02 C03 C04 C05 C06 C07 C08 C09 C17 C19
+//@   option seq
+//@   requires caps: forall p int :: 0 <= p && p < len(c.capitalizations) ==> alnum(c.capitalizations[p])
+//@   ensures valid-exported-identifier: len(result) > 0 && alnum(result) && isupper(result[0])
+//@   invariant loop1: 0 - 1 <= rangeindex && alnum(sb)
+
+//@ func (*Caser).IdentifierFromFileName@ident
+//@   props C14 C01 C02 C03 C04 C05 C06 C07 C08 C09 C17 C19
+//@   option seq
+//@   requires caps: forall p int :: 0 <= p && p < len(c.capitalizations) ==> alnum(c.capitalizations[p])
+//@   ensures valid-exported-identifier: len(result) > 0 && alnum(result) && isupper(result[0])
+//@   invariant loop1: 0 - 1 <= rangeindex
